@@ -97,9 +97,10 @@ package main
 //@   panics never
 //@   ensures begin: result.begin == pos
 //@   ensures fits: 1 <= result.len && pos + result.len <= len(buf)
+//@   ensures kind: result.ttype == New_TokenType_IDENTIFIER
 //@   loop 0:
 //@     invariant bounds: 1 <= i && pos + i <= len(buf)
-//@     invariant cur: cur.begin == pos
+//@     invariant cur: cur.begin == pos && cur.ttype == New_TokenType_IDENTIFIER
 //@     decreases len(buf) - (pos + i)
 
 //@ func scanIntImmToken
@@ -111,9 +112,10 @@ package main
 //@   ensures begin: result.begin == pos
 //@   ensures fits: 0 <= result.len && pos + result.len < len(buf)
 //@   ensures progress: '0' <= buf[pos] && buf[pos] <= '9' ==> result.len >= 1
+//@   ensures kind: result.ttype == New_TokenType_INT_IMM
 //@   loop 0:
 //@     invariant bounds: 0 <= i && pos + i < len(buf)
-//@     invariant cur: c == buf[pos + i]
+//@     invariant cur: c == buf[pos + i] && cur.ttype == New_TokenType_INT_IMM && cur.begin == pos
 //@     decreases len(buf) - (pos + i)
 
 //@ func scanStringLiteralToken
@@ -125,11 +127,12 @@ package main
 //@   ensures begin: result.begin == pos
 //@   ensures fits: 2 <= result.len && pos + result.len <= len(buf)
 //@   ensures closed: buf[pos + result.len - 1] == '"'
+//@   ensures kind: result.ttype == New_TokenType_STRING
 //@   ensures C11 verbatim-len: len(result.stringVal) == result.len - 2
 //@   ensures C11 verbatim: forall k int :: 0 <= k && k < result.len - 2 ==> result.stringVal[k] == buf[pos + 1 + k]
 //@   loop 0:
 //@     invariant bounds: 1 <= i && pos + i <= len(buf)
-//@     invariant cur: cur.begin == pos
+//@     invariant cur: cur.begin == pos && cur.ttype == New_TokenType_STRING
 //@     invariant copied-len: len(bb) == i - 1
 //@     invariant copied: forall k int :: 0 <= k && k < i - 1 ==> bb[k] == buf[pos + 1 + k]
 //@     decreases len(buf) - (pos + i)
@@ -143,10 +146,11 @@ package main
 //@   ensures begin: result.begin == pos
 //@   ensures fits: 2 <= result.len && pos + result.len <= len(buf)
 //@   ensures closed: buf[pos + result.len - 1] == '`'
+//@   ensures kind: result.ttype == New_TokenType_STRING
 //@   ensures first-backtick: forall k int :: 1 <= k && k < result.len - 1 ==> buf[pos + k] != '`'
 //@   loop 0:
 //@     invariant bounds: 1 <= i && pos + i <= len(buf)
-//@     invariant cur: cur.begin == pos
+//@     invariant cur: cur.begin == pos && cur.ttype == New_TokenType_STRING
 //@     invariant no-backtick: forall k int :: 1 <= k && k < i ==> buf[pos + k] != '`'
 //@     decreases len(buf) - (pos + i)
 
@@ -160,6 +164,7 @@ package main
 //@   ensures fits: 0 <= result.len && result.begin + result.len <= len(buf)
 //@   ensures progress: result.ttype != New_TokenType_EOF ==> result.len >= 1
 //@   ensures space: result.ttype == New_TokenType_SPACE ==> result.begin == pos
+//@   ensures eol: result.ttype == New_TokenType_EOL ==> result.len == 1 && result.begin == pos && buf[pos] == '\n'
 
 //@ func isNeighborLT
 //@   props C16
@@ -178,8 +183,11 @@ package main
 //@   ensures after-prev: result.begin >= prev.begin + prev.len || result.begin == len(buf)
 //@   ensures fits: 0 <= result.len && result.begin + result.len <= len(buf)
 //@   ensures progress: result.ttype != New_TokenType_EOF ==> result.len >= 1
+//@   ensures eol: result.ttype == New_TokenType_EOL ==> result.len == 1 && buf[result.begin] == '\n'
+//@   ensures nonneg: result.begin >= 0
 //@   loop 0:
 //@     invariant fits: 0 <= tk.len && tk.begin + tk.len <= len(buf) && tk.begin >= prev.begin + prev.len
+//@     invariant eol: tk.ttype == New_TokenType_EOL ==> tk.len == 1 && buf[tk.begin] == '\n'
 //@     invariant progress: tk.ttype != New_TokenType_EOF ==> tk.len >= 1
 //@     decreases len(buf) - (tk.begin + tk.len) + ite(tk.ttype == New_TokenType_SPACE, 1, 0)
 
@@ -642,3 +650,64 @@ package main
 //@   ensures found-iff: result.E1 <==> (exists k string :: has(scdict(s).RecFacMap.Fdict, k) && recmatch(fieldNames, scdict(s).RecFacMap.Fdict[k]))
 //@   ensures the-match: result.E1 ==> (exists k string :: has(scdict(s).RecFacMap.Fdict, k) && result.E0 == scdict(s).RecFacMap.Fdict[k] && recmatch(fieldNames, result.E0))
 //@   ensures others: mapsframe()
+
+// ---------------------------------------------------------------------------------------------
+// C06 (partial): the column the offside rule compares is the offset of the token in its physical line
+// (L1), and the offside primitives decide by comparing columns only (L3).
+// CARVE-OUT (known finding F9): the column is wrong when a newline lies inside the skipped region or
+// inside the current token (a block comment or a raw string spanning lines, followed by a token on the
+// same line); the column clause is stated under "no newline between the old and the new token start".
+// ---------------------------------------------------------------------------------------------
+
+//@ func newTkz
+//@   props C06
+//@   mode strings=bytes
+//@   panics may
+//@   ensures wf: tkz_wf(result) && result.buf == buf
+//@   ensures col: no_newline(buf, 0, result.current.begin) ==> col_ok(result)
+
+//@ func tkzNext
+//@   props C06
+//@   mode strings=bytes
+//@   requires wf: tkz_wf(tkz)
+//@   requires col: col_ok(tkz)
+//@   panics may
+//@   ensures wf: tkz_wf(result) && result.buf == tkz.buf
+//@   ensures monotone: result.current.begin >= tkz.current.begin
+//@   ensures col-carve-out-F9: no_newline(tkz.buf, ite(tkz.current.ttype == New_TokenType_EOL, tkz.current.begin + 1, tkz.current.begin), result.current.begin) ==> col_ok(result)
+
+// the offside primitives: decisions are comparisons of columns, nothing else
+//@ func psCurCol
+//@   props C06
+//@   panics never
+//@   returns ps.tkz.col
+
+//@ func psCurOffside
+//@   props C06
+//@   panics iff len(ps.offsideCol) == 0
+//@   returns ps.offsideCol[len(ps.offsideCol) - 1]
+
+//@ func insideOffside
+//@   props C06 C09
+//@   panics iff len(ps.offsideCol) == 0
+//@   returns ps.tkz.col >= ps.offsideCol[len(ps.offsideCol) - 1]
+
+//@ func psPushOffside
+//@   props C06
+//@   panics iff len(ps.offsideCol) == 0 || ps.offsideCol[len(ps.offsideCol) - 1] >= ps.tkz.col
+//@   ensures pushed: len(result.offsideCol) == len(ps.offsideCol) + 1 && result.offsideCol[len(ps.offsideCol)] == ps.tkz.col
+//@   ensures kept: forall k int :: 0 <= k && k < len(ps.offsideCol) ==> result.offsideCol[k] == ps.offsideCol[k]
+//@   ensures rest: result.tkz == ps.tkz && result.scope == ps.scope && result.tvc == ps.tvc && result.tdctx == ps.tdctx
+
+//@ func psPopOffside
+//@   props C06
+//@   panics iff len(ps.offsideCol) == 0
+//@   ensures popped: len(result.offsideCol) == len(ps.offsideCol) - 1
+//@   ensures kept: forall k int :: 0 <= k && k < len(ps.offsideCol) - 1 ==> result.offsideCol[k] == ps.offsideCol[k]
+//@   ensures rest: result.tkz == ps.tkz && result.scope == ps.scope && result.tvc == ps.tvc && result.tdctx == ps.tdctx
+
+// "a line indented less than its block ends that block"
+//@ func isEndOfBlock
+//@   props C06
+//@   panics iff len(ps.offsideCol) == 0
+//@   returns ps.tkz.col < ps.offsideCol[len(ps.offsideCol) - 1] || ps.tkz.current.ttype == New_TokenType_EOF || ps.tkz.current.ttype == New_TokenType_RPAREN
